@@ -19,6 +19,8 @@ def python_evaluate(s: str) -> int:
             return val
         else:
             raise NotAnIntegerException(s)
+    except NotAnIntegerException:
+        raise
     except SyntaxError as ex:
         raise NotAnIntegerException(s, ex.msg)
     except ValueError as ex:
@@ -28,4 +30,6 @@ def python_evaluate(s: str) -> int:
     except NameError as ex:
         raise NotAnIntegerException(s, str(ex))
     except ArithmeticError as ex:
+        raise NotAnIntegerException(s, str(ex))
+    except Exception as ex:
         raise NotAnIntegerException(s, str(ex))
